@@ -95,12 +95,37 @@ class Env:
         out = []
         for root, _, files in os.walk(self.tmpdir):
             out += [f for f in files if f.endswith((".hdf5", ".h5"))]
+        # a cache file that was unlinked but is still held open by this process is left behind too (until the process ends);
+        # only descriptors opened since the last clean_tmp() count
+        new = self._open_cache_fds() - getattr(self, "_fd_base", set())
+        if new:
+            # objects kept alive only by reference cycles (exception tracebacks) are released first
+            import gc
+
+            gc.collect()
+            new = self._open_cache_fds() - getattr(self, "_fd_base", set())
+        out += sorted(new)
         return out
+
+    def _open_cache_fds(self):
+        found = set()
+        try:
+            for fd in os.listdir("/proc/self/fd"):
+                try:
+                    tgt = os.readlink("/proc/self/fd/" + fd)
+                except OSError:
+                    continue
+                if tgt.startswith(self.tmpdir) and (tgt.endswith((".hdf5", ".h5")) or tgt.endswith((".hdf5 (deleted)", ".h5 (deleted)"))):
+                    found.add("open descriptor %s -> %s" % (fd, os.path.basename(tgt)))
+        except OSError:
+            pass
+        return found
 
     def clean_tmp(self):
         for root, _, files in os.walk(self.tmpdir):
             for f in files:
                 os.unlink(os.path.join(root, f))
+        self._fd_base = self._open_cache_fds()
 
 
 _ENV = {}
@@ -163,7 +188,8 @@ def _deliberate_translation(raised, inj):
 
 
 def is_cleanup_unlink(point):
-    return point[1].endswith("wrapper") and point[4] in ("unlink", "remove")
+    # a fault inside the clean-up's own unlink / the temporary file's own close cannot also have them succeed
+    return point[1].endswith("wrapper") and (point[4] in ("unlink", "remove") or point[4].endswith("close"))
 
 
 def run_fault(scen, point, excname, part, second=None):
@@ -202,6 +228,9 @@ def run_fault(scen, point, excname, part, second=None):
                            f"{type(raised).__name__}: {str(raised)[:120]} (the real failure survives at most as implicit context)")
     # (ii) no temporary file left behind
     leaks = e.leaks()
+    if point[4].split(".")[-1] in ("close", "__exit__", "__del__"):
+        # the failing call IS the one that releases the file handle: a descriptor left open is that failure itself
+        leaks = [x for x in leaks if not x.startswith("open descriptor")]
     if leaks and not is_cleanup_unlink(point):
         part.violation(case, f"temporary cache file(s) left behind after a failure in {point[1]} -> {point[4]}: {leaks}")
     e.clean_tmp()
@@ -308,6 +337,54 @@ def real_multipool(chk):
     return part
 
 
+def multipool_awkward_exceptions(chk):
+    """a batch read fails inside a worker process with an exception class that is awkward to ship between processes (fixed
+    constructor arity, OS error with errno/filename, ...): the failure must still REACH the caller - in a child interpreter
+    under a watchdog, because the way this goes wrong is a silent hang of pool.map"""
+    import json
+    import subprocess
+    import sys
+
+    part = core.Part()
+    timeout = 300
+    for kind in ("unicode", "oserror", "keyerror", "needs_two"):
+        for where in ("file", "object"):
+            case = dict(kind="multipool_exc", exc=kind, input=where)
+            scratch = seams.fresh_dir("c13x")
+            env = dict(os.environ, VERIF_SCRATCH=scratch)
+            p = subprocess.Popen([sys.executable, "-W", "ignore", "-m", "mc.props.c13_child", kind, where], cwd=core.VERIF, env=env,
+                                 stdout=subprocess.PIPE, stderr=subprocess.PIPE, text=True, start_new_session=True)
+            try:
+                so, se = p.communicate(timeout=timeout)
+            except subprocess.TimeoutExpired:
+                import signal
+
+                try:
+                    os.killpg(p.pid, signal.SIGKILL)
+                except Exception:
+                    p.kill()
+                p.communicate()
+                part.record(case, outcome=("hang",), nontrivial=True)
+                part.violation(case, f"a {kind} raised by a batch read inside a MultiPool worker never reached the caller: after {timeout} s the call had neither "
+                               "raised nor returned (pool.map hangs)")
+                continue
+            line = [ln for ln in so.splitlines() if ln.startswith("C13CHILD ")]
+            if not line:
+                part.extra.setdefault("harness_errors", []).append("c13 child failed: " + (se or so)[-400:])
+                part.violation(case, "HARNESS: the child interpreter did not report: " + (se or so)[-300:])
+                continue
+            out = json.loads(line[0][len("C13CHILD "):])
+            part.record(case, outcome=(out.get("raised"), bool(out.get("leaks"))), nontrivial=True)
+            part.transitions += 1
+            if out.get("raised") is None:
+                part.violation(case, f"a {kind} raised by a batch read inside a MultiPool worker was swallowed")
+            elif out.get("leaks"):
+                part.violation(case, f"temporary file left behind after a worker's read failure on a real MultiPool: {out['leaks']}")
+            else:
+                part.validated += 1
+    return part
+
+
 def main():
     chk = core.Check(
         PID, "fault_enumeration",
@@ -345,6 +422,7 @@ def main():
     items.sort(key=lambda it: repr(it[0]))
     chk.merge(core.parallel(shard, core.chunks(items, core.NPROC * 3)))
     chk.merge(real_multipool(chk))
+    chk.merge(multipool_awkward_exceptions(chk))
     chk.assumptions += [
         "crash points are exceptions raised at call boundaries inside thejoker's Python code; SIGKILL and failures inside a C call are outside the model",
         "the single point excluded from the leak oracle is the cleanup's own os.unlink call",
